@@ -811,7 +811,7 @@ func c04Run(cfg c04Cfg) (res c04Res) {
 				close(ch)
 			}
 			gmu.Unlock()
-			n := c04Notif{Kind: int(kind), Path: p}
+			n := c04Notif{Kind: int(kind), Path: p, DigestOK: fi == nil} // a deletion carries no digest
 			if fi != nil {
 				if st, ok := fi.Sys().(*types.Stat); ok {
 					want := hdrFor(st)
@@ -1688,7 +1688,7 @@ func run0802(in Sx) (out Sx) {
 
 func genC08(g *Gen) {
 	r := g.Rng.Fork()
-	n := g.Vol(120, 600)
+	n := g.Vol(80, 600)
 	child := os.Getenv("C08_CHILD") != ""
 	if v := os.Getenv("C08_CASES"); v != "" {
 		fmt.Sscan(v, &n)
@@ -1696,7 +1696,7 @@ func genC08(g *Gen) {
 	if !child {
 		// supporting test outside the model: the same generator under the race detector (first, in
 		// its own process: a fatal "concurrent map writes" there is an output value, not a crash here)
-		in := L(NI(g.Vol(30, 600)), N(r.U64()%1000000))
+		in := L(NI(g.Vol(24, 600)), N(r.U64()%1000000))
 		out := run0802(in)
 		built := len(out.L) > 2 && out.L[0].IsTrue() && out.L[2].Int() > 0
 		if !built {
@@ -1755,6 +1755,39 @@ func genC08(g *Gen) {
 			}
 		} else {
 			view, prior = c04GenTree(r, 7, []int{0, 1, 2, 3, 5, 8, 13, 40})
+		}
+		// the prior destination also holds what the source lacks: top-level directories with many
+		// entries (around the destination walker's channel capacity, 128) that the receiver has to
+		// remove while its destination walker may still be inside them, and a directory where the
+		// source has a regular file
+		if r.Chance(25) {
+			for k, nx := 0, 1+r.Intn(2); k < nx; k++ {
+				d := c04Dir(Pick(r, []string{"0-old", "b~old", "f0001~old", "zz-old"})+fmt.Sprint(k), c04Mt)
+				for j, nk := 0, Pick(r, []int{2, 60, 127, 128, 129, 131, 150, 200}); j < nk; j++ {
+					d.Kids = append(d.Kids, c04File(fmt.Sprintf("k%04d", j), r.Intn(3), r.U64(), c04Mt))
+				}
+				prior = append(prior, d)
+			}
+			if r.Chance(50) {
+				// a top-level regular file of the source that is a big directory in the prior destination
+				for _, n := range view {
+					if os.FileMode(n.Stat.Mode)&os.ModeType == 0 {
+						var rest []*MNode
+						for _, q := range prior {
+							if q.Name != n.Name {
+								rest = append(rest, q)
+							}
+						}
+						d := c04Dir(n.Name, c04Mt)
+						for j, nk := 0, Pick(r, []int{3, 129, 140, 200}); j < nk; j++ {
+							d.Kids = append(d.Kids, c04File(fmt.Sprintf("k%04d", j), r.Intn(3), r.U64(), c04Mt))
+						}
+						prior = append(rest, d)
+						break
+					}
+				}
+			}
+			cls += "+prior-extras"
 		}
 		in := L(ViewSx(view), ViewSx(prior), NI(nsched), N(r.U64()%1000000), NI(chunk))
 		out := run0801(in)
